@@ -427,13 +427,19 @@ func Exec(args []string, env *Env) int {
 		ws = append(ws, wr{kv.K, kv.V, false, true})
 	}
 	sort.SliceStable(ws, func(i, j int) bool { return ws[i].port < ws[j].port })
+	firstFile := -1 // the first output that is not a stream: the one the omit-output / wrong-place modes leave out
+	for idx, w := range ws {
+		if !w.stream && firstFile < 0 {
+			firstFile = idx
+		}
+	}
 	for idx, w := range ws {
 		data := Content(c.ID, w.port, c.Params, c.Tags, inShas, jShas, size)
 		path := w.path
-		if idx == 0 && fail == "omit-output" && !w.stream {
+		if idx == firstFile && fail == "omit-output" {
 			continue
 		}
-		if idx == 0 && fail == "wrong-place" && !w.stream {
+		if idx == firstFile && fail == "wrong-place" {
 			path = path + ".wrong"
 		}
 		full := env.abs(path)
